@@ -34,6 +34,9 @@ RULE = ("specific-yield parameter sets of both kinds x increasing grids inside, 
         "datasets; non-trivial = grid of at least 3 levels; distinct by (parameters, grid)")
 
 
+CURVES = [0]
+
+
 def check_sy_is_the_parameter_sets(ctx, sy, params, grid, inp, oracle="c17Holds", what="the simulated storage"):
     """PEATCLSM parameter sets: the function that is integrated is the one the parameters define (model
     peatclsmKnots/pwl at Float, as in C16), whatever was constructed earlier in the process."""
@@ -70,11 +73,18 @@ def check_curve(ctx, sy, grid, mean, inp):
     ob = "compute_rise_curve = model riseCurve at Float on the recorded integrals"
     if "parameters" in inp and not check_sy_is_the_parameter_sets(ctx, sy, inp["parameters"], grid, inp):
         return [float(v) for v in sr.compute_rise_curve(sy, np.array(grid, dtype=float), mean)]
-    g = common.any_layout(ctx.rng, np.array(grid, dtype=float))
+    CURVES[0] += 1
+    g = common.any_layout(ctx.rng, np.array(grid, dtype=float), p=(1.0 if CURVES[0] % 3 == 0 else 0.25))   # every third curve for sure
     snap_g = common.snapshot(g)
-    with sim.record_integrate(sy) as calls:
-        sim.dirty_heap(ctx.rng, len(g))
-        W = [float(v) for v in sr.compute_rise_curve(sy, g, mean)]
+    try:
+        with sim.record_integrate(sy) as calls:
+            sim.dirty_heap(ctx.rng, len(g))
+            W = [float(v) for v in sr.compute_rise_curve(sy, g, mean)]
+    except Exception as e:  # noqa
+        ctx.violation("impl-violation", "c17Holds", {"input": dict(inp, grid_layout={"dtype": str(g.dtype), "strides": list(g.strides)}),
+                      "impl": repr(e)[:300], "oracle": {"name": "c17Holds", "result": False, "witness": {
+                          "why": "compute_rise_curve raises on an increasing grid of levels", "exception": repr(e)[:300]}}})
+        return [float("nan")] * len(grid)
     if mean is None:
         ctx.count("curves_with_the_default_mean")
         mean = 0.0
@@ -176,7 +186,7 @@ def run(ctx):
         inp = {"truth": tr.describe(), "zeta_step": zstep, "parameters": params}
         # (a preliminary calibration against the rise curve has no transmissivity yet: the rise simulation needs only the
         # specific yield section of the file)
-        file_params = params if rng.random() < 0.6 else {"specific_yield": params["specific_yield"]}
+        file_params = params if (n_cli_done % 2 == 1) else {"specific_yield": params["specific_yield"]}   # every other case
         inp["sections_in_parameter_file"] = sorted(file_params)
         r1, text1 = sim.simulate_cli(ctx, "rise", w["db"], file_params, False)
         r2, text2 = sim.simulate_cli(ctx, "rise", w["db"], file_params, True)
